@@ -6,24 +6,28 @@ import XjsModel.Props.C12
   The ECMAScript grammar for the operator core of the subset is a precedence-stratified, left-associative grammar:
   LogicalOR < LogicalAND < Equality < Relational < Additive < Multiplicative < Unary < Postfix(Update). A text derives
   a tree exactly when every left operand of lower level and every right operand of lower OR EQUAL level stands in
-  parentheses (more parentheses are always allowed). `RS.SE.toks` is that rendering (trusted, two lines), with `grp`
+  parentheses (more parentheses are always allowed). `RA.SE.toks` is that rendering (trusted, two lines), with `grp`
   for redundant parentheses.
 
   Proved here:
     * COMPLETENESS for ALL trees of the language (expressions incl. function and object literals, every statement
       kind, whole programs; any depth / combination / redundant parentheses), with explicit semicolons:
-      the rendering parses, in any mode, to exactly the tree it was rendered from (`RS.main`);
+      the rendering parses, in any mode, to exactly the tree it was rendered from (`RA.main`);
     * the binding powers order the operator tokens exactly as the ECMAScript levels do, equal levels for the
       operators of one production (table obligation, re-extracted from /repo on every run);
     * for EVERY accepted text, of the whole subset: the token sequence of the returned tree is the input token
       sequence (`;` and `,` aside) — statement structure cannot swallow, duplicate or reorder tokens (from C12).
+    * AUTOMATIC SEMICOLONS: leaving out a terminator where a semicolon is inserted and the next token cannot continue
+      the expression gives the same tree (`automatic_semicolons_give_the_same_tree`), restricted productions included
+      (after fix f7f7cd3);
   Decided by the correspondence run and the model-free oracle (independent unparser in many layouts, goja/acorn as
-  reference parsers): automatic semicolon insertion, layout independence (whitespace, comments), SOUNDNESS (that no
+  reference parsers): that xjs's insertion rule is ECMAScript's, layout independence at byte level (whitespace,
+  comments), SOUNDNESS (that no
   other text is accepted with another grouping than ECMAScript's).
   Known finding there: bare-cr (D10) (restricted productions: repaired, f7f7cd3).
 -/
 namespace Xjs.C02
-open Xjs Xjs.RS
+open Xjs Xjs.RA
 
 /-- the ECMAScript levels of the binary operator tokens, lowest first -/
 def ecmaLevels : List (List TokType) :=
@@ -42,11 +46,11 @@ theorem binding_powers_follow_ecmascript :
 
 /-- COMPLETENESS (expressions without function / object literals): every tree, rendered with the parentheses the grammar requires (and any redundant
     ones), is accepted and parsed to exactly that tree; the parser's mode flags play no role. -/
-theorem operator_core_parsed_as_rendered (cfg : PCfg) (hc : BaseCfg cfg) (s : SE) (hw : s.wf = true)
+theorem operator_core_parsed_as_rendered (cfg : PCfg) (hc : BaseCfg cfg) (s : SE) (hw : s.wf = true) (hterm : s.term = true)
     (st : PS) (rest : List Token) (hr : rest ≠ []) (ht : st.toks = s.toks ++ rest) (hstop : stops cfg LOWEST rest) :
     parseExpressionI cfg [] LOWEST st = some (s.tree, nextK (s.toks.length - 1) st) ∧
     (nextK (s.toks.length - 1) st).errors = st.errors := by
-  refine ⟨C03.printed_tokens_parse_back cfg hc s hw st rest hr ht hstop, ?_⟩
+  refine ⟨C03.printed_tokens_parse_back cfg hc s hw hterm st rest hr ht hstop, ?_⟩
   have key : ∀ (k : Nat) (st : PS), (nextK k st).errors = st.errors := by
     intro k
     induction k with
@@ -58,13 +62,24 @@ theorem operator_core_parsed_as_rendered (cfg : PCfg) (hc : BaseCfg cfg) (s : SE
     with `;` after expression, `let` and `return` statements and the parentheses the grammar requires, is accepted
     without error and parsed to exactly that tree, in every mode -/
 theorem program_parsed_as_rendered (cfg : PCfg) (hc : BaseCfg cfg) (prog : SSList) (hw : prog.wf = true)
-    (eofTok : Token) (he : eofTok.type = .eof) :
+    (hterm : prog.term = true) (eofTok : Token) (he : eofTok.type = .eof) :
     ∃ r, parseProgram cfg (prog.toks ++ [eofTok]) = some r ∧ r.prog = prog.tree ∧ r.errors = [] ∧ r.hasErr = false :=
-  C03.printed_program_parses_back cfg hc prog hw eofTok he
+  C03.printed_program_parses_back cfg hc prog hw hterm eofTok he
+
+/-- AUTOMATIC SEMICOLONS: a statement terminator may be left out wherever the token behind the statement is one at
+    which a semicolon is inserted (end of input, `}`, or a token on a new line other than `-=`) and which cannot
+    continue the expression (no infix or call token, except a postfix `++` / `--` on the new line; `SSList.lay false false`).
+    The program is then parsed, in every mode, to the same tree as with all terminators written — the tree
+    (`SSList.tree`) does not depend on the `semi` flags at all. -/
+theorem automatic_semicolons_give_the_same_tree (cfg : PCfg) (hc : BaseCfg cfg) (prog : SSList) (hw : prog.wf = true)
+    (eofTok : Token) (he : eofTok.type = .eof) (hlay : prog.lay false false eofTok = true) :
+    ∃ r, parseProgram cfg (prog.toks ++ [eofTok]) = some r ∧ r.prog = prog.tree ∧ r.errors = [] ∧ r.hasErr = false :=
+  program_round_trip (tol := false) (sm := false) hc (fun h => by cases h) (fun h => by cases h) prog hw eofTok he hlay
 
 /-- redundant parentheses never change the tree other than by the explicit grouping node -/
-theorem redundant_parentheses_only_add_grouping (s : SE) :
-    (SE.grp s).tree = .group lpT s.tree rpT ∧ (SE.grp s).toks = lpT :: s.toks ++ [rpT] := ⟨rfl, rfl⟩
+theorem redundant_parentheses_only_add_grouping (lp rp : Token) (s : SE) :
+    (SE.grp lp s rp).tree = .group lp s.tree rp ∧ (SE.grp lp s rp).toks = lp :: s.toks ++ [rp] := by
+  simp [SE.tree, SE.toks]
 
 /-- for every accepted text of the WHOLE subset the tree's tokens are the input's tokens (see C12) -/
 theorem accepted_text_is_the_tree (cfg : PCfg) (toks : List Token) (r : ParseResult)
@@ -83,10 +98,18 @@ example : (SE.bin (tk .minus [45]) a (SE.bin (tk .minus [45]) b c)).toks.map (·
 example : (SE.asg (tk .assign [61]) a (SE.casg (tk .plusAssign [43, 61]) b c)).toks.map (·.type) = [.ident, .assign, .ident, .plusAssign, .ident] := by decide
 example : (SE.asg (tk .assign [61]) a (SE.casg (tk .plusAssign [43, 61]) b c)).wf = true := by decide
 
+/-- `a = b⏎c` : two statements, the first without `;` (the token `c` stands on a new line) -/
+private def asiProg : SSList :=
+  .cons (.exprS (.asg (tk .assign [61]) a b) false)
+    (.cons (.exprS (.atom { type := .ident, lit := [99], sl := 1, sc := 0, el := 1, ec := 1, nl := true }) true) .nil)
+example : asiProg.wf = true ∧ asiProg.lay false false (tk .eof []) = true := by decide
+example : asiProg.toks.map (·.type) = [.ident, .assign, .ident, .ident, .semicolon] := by decide
+
 end Xjs.C02
 
 #print axioms Xjs.C02.binding_powers_follow_ecmascript
 #print axioms Xjs.C02.operator_core_parsed_as_rendered
 #print axioms Xjs.C02.program_parsed_as_rendered
+#print axioms Xjs.C02.automatic_semicolons_give_the_same_tree
 #print axioms Xjs.C02.redundant_parentheses_only_add_grouping
 #print axioms Xjs.C02.accepted_text_is_the_tree
